@@ -11,3 +11,13 @@ impl ToTokens for Ident { fn to_tokens(&self, t: &mut TokenStream) { t.push_idx(
 impl ToTokens for TokenTree { fn to_tokens(&self, t: &mut TokenStream) { t.push_idx(self.idx) } }
 impl ToTokens for TokenStream { fn to_tokens(&self, t: &mut TokenStream) { t.absorb(*self) } }
 impl<T: ToTokens> ToTokens for Option<T> { fn to_tokens(&self, t: &mut TokenStream) { if let Some(x) = self { x.to_tokens(t) } } }
+
+/// `format_ident!("{name}")`: the formatted text becomes the identifier's text (leaked: identifiers are `Copy` here)
+pub fn __ident_from_fmt(args: core::fmt::Arguments<'_>) -> Ident {
+    let s: &'static str = Box::leak(std::fmt::format(args).into_boxed_str());
+    Ident { idx: u32::MAX, keyword: false, text: s.as_ptr(), text_len: s.len() }
+}
+#[macro_export]
+macro_rules! format_ident {
+    ($fmt:literal) => { $crate::__ident_from_fmt(format_args!($fmt)) };
+}
